@@ -91,6 +91,11 @@ type uxTx struct {
 	// script (address re-use).  Absent (chain tables saved before the field
 	// existed): every output has a script of its own, id*10 + index.
 	Scr []int `json:"scr,omitempty"`
+	// 1: this transaction is the block's COINBASE (first of block.Transactions,
+	// one input with the null outpoint); only the first transaction of a block
+	// description may carry it.  Blocks whose description has none get a default
+	// coinbase nobody asks for.
+	Cb int `json:"cb,omitempty"`
 }
 
 // scriptID is the script id of output i of the transaction.
@@ -223,9 +228,12 @@ func uxBuildChain(desc [][]uxTx) (*uxChainData, error) {
 		abs: map[int]uxTx{}}
 	abs := cd.abs
 	for _, blk := range desc {
-		for _, t := range blk {
+		for pos, t := range blk {
 			if _, dup := abs[t.ID]; dup {
 				return nil, fmt.Errorf("tx id %d twice in the chain", t.ID)
+			}
+			if t.Cb == 1 && (pos != 0 || len(t.Ins) != 0) {
+				return nil, fmt.Errorf("tx id %d: a coinbase is the first transaction of its block and has no inputs", t.ID)
 			}
 			abs[t.ID] = t
 		}
@@ -241,7 +249,9 @@ func uxBuildChain(desc [][]uxTx) (*uxChainData, error) {
 		t := abs[id]
 		tx := wire.NewMsgTx(2)
 		tx.LockTime = uint32(id)
-		if len(t.Ins) == 0 {
+		if t.Cb == 1 {
+			tx.AddTxIn(wire.NewTxIn(&wire.OutPoint{Index: 0xffffffff}, []byte{0x02, byte(id), 0x76, 0x66}, nil))
+		} else if len(t.Ins) == 0 {
 			tx.AddTxIn(wire.NewTxIn(&wire.OutPoint{Hash: uxForeignHash(1000 + id), Index: 0}, nil, nil))
 		}
 		for _, in := range t.Ins {
@@ -272,7 +282,10 @@ func uxBuildChain(desc [][]uxTx) (*uxChainData, error) {
 		cb := wire.NewMsgTx(2)
 		cb.AddTxIn(wire.NewTxIn(&wire.OutPoint{Index: 0xffffffff}, []byte{0x01, byte(h), 0x76, 0x66}, nil))
 		cb.AddTxOut(wire.NewTxOut(50, uxScript(100000+h, 0)))
-		blk.AddTransaction(cb)
+		// the description's own coinbase (an output of it may be requested) or the default one
+		if h < 1 || len(desc[h-1]) == 0 || desc[h-1][0].Cb != 1 {
+			blk.AddTransaction(cb)
+		}
 		var prevScripts [][]byte
 		if h >= 1 {
 			for _, t := range desc[h-1] {
@@ -281,7 +294,7 @@ func uxBuildChain(desc [][]uxTx) (*uxChainData, error) {
 					return nil, err
 				}
 				blk.AddTransaction(tx)
-				if len(t.Ins) == 0 {
+				if len(t.Ins) == 0 && t.Cb != 1 {
 					prevScripts = append(prevScripts, uxScript(-t.ID, 0))
 				}
 				for _, in := range t.Ins {
